@@ -61,6 +61,17 @@ func (c *C16Bad) Store()                         {}
 func (c *C16Bad) Edit(x *rux.Context) string     { return "" }
 func (c *C16Bad) Delete(x *rux.Context)          { c.rec.hit(x, "Delete") }
 
+// two controller types whose names differ only by case (same resource name), with different action sets
+type Gadget struct{ rec *c16Rec }
+
+func (c *Gadget) Index(x *rux.Context) { c.rec.hit(x, "Index") }
+
+type GADGET struct{ rec *c16Rec }
+
+func (c *GADGET) Index(x *rux.Context)  { c.rec.hit(x, "Index") }
+func (c *GADGET) Show(x *rux.Context)   { c.rec.hit(x, "Show") }
+func (c *GADGET) Create(x *rux.Context) { c.rec.hit(x, "Create") }
+
 type c16Case struct {
 	Thorough bool   `json:"thorough,omitempty"`
 	Mask     int    `json:"action_mask"`
@@ -71,6 +82,7 @@ type c16Case struct {
 }
 
 func c16Gen(tier string, emit func(c16Case)) {
+	emit(c16Case{Kind: "bad"})
 	for mask := 0; mask < 128; mask++ {
 		for _, uses := range []bool{false, true} {
 			for bi, base := range []string{"/", "/api/", ""} {
@@ -83,7 +95,6 @@ func c16Gen(tier string, emit func(c16Case)) {
 			}
 		}
 	}
-	emit(c16Case{Kind: "bad"})
 }
 
 var c16DebugLine = regexp.MustCompile(`\[RUX-DEBUG\][^\n]*?\s([A-Z,]+)\s+(/\S*)\s+-->`)
@@ -116,6 +127,20 @@ func c16Run(c c16Case, st *fw.Stats) []fw.Viol {
 		for _, ctl := range []any{Res127{rec}, 7, "x", new(int), &[]int{1}, map[string]int{}} {
 			if pv := try(func() { rux.New().Resource("/", ctl) }); pv == nil {
 				add("resource:accepted-bad-controller", fmt.Sprintf("Resource(\"/\", %T) was accepted; a non-pointer or non-struct controller must be rejected", ctl))
+			}
+		}
+		// the first registration of a resource name must not decide what a later, different type of that name gets
+		for _, order := range [][]any{{&Gadget{rec}, &GADGET{rec}}, {&GADGET{rec}, &Gadget{rec}}} {
+			for _, ctl := range order {
+				r := rux.New()
+				r.Resource("/", ctl)
+				want := "GET /gadget gadget_index mw=0"
+				if _, big := ctl.(*GADGET); big {
+					want = "GET /gadget gadget_index mw=0; GET /gadget/create gadget_create mw=0; GET /gadget/{id} gadget_show mw=0"
+				}
+				if got := strings.Join(routeSet(r), "; "); got != want {
+					add("resource:same-name-controllers", fmt.Sprintf("Resource(\"/\", %T) after another controller type of the same resource name: routes [%s], expected [%s]", ctl, got, want))
+				}
 			}
 		}
 		r := rux.New()
@@ -223,7 +248,11 @@ func c16Run(c c16Case, st *fw.Stats) []fw.Viol {
 			pv := try(func() {
 				ctl := c16New(c.Mask, c.Uses, rec)
 				if c.Group {
-					r.Group("/g", func() { r.Resource(c.Base, ctl) })
+					// two group middleware passed in a slice with spare capacity (append-in-place would alias)
+					gm := make([]rux.HandlerFunc, 2, 8)
+					gm[0] = func(x *rux.Context) { rec.log = append(rec.log, "g0") }
+					gm[1] = func(x *rux.Context) { rec.log = append(rec.log, "g1") }
+					r.Group("/g", func() { r.Resource(c.Base, ctl) }, gm...)
 				} else {
 					r.Resource(c.Base, ctl)
 				}
@@ -306,6 +335,9 @@ func c16CheckTable(r *rux.Router, c c16Case, desc string, impl []string, resPath
 		if c.Uses {
 			mw = 1
 		}
+		if c.Group {
+			mw += 2
+		}
 		want = append(want, fmt.Sprintf("%s %s %s_%s mw=%d", strings.Join(ms, ","), resPath+c16Table[a].path, resName, strings.ToLower(a), mw))
 	}
 	sort.Strings(want)
@@ -348,6 +380,9 @@ func c16CheckRouter(r *rux.Router, rec *c16Rec, c c16Case, desc string, impl []s
 				id := ""
 				if ds := tb.Pats[res.Route].MatchAll(res.Path, 1); len(ds) > 0 {
 					id = ds[0]["id"]
+				}
+				if c.Group {
+					wantLog = append(wantLog, "g0", "g1")
 				}
 				if c.Uses {
 					wantLog = append(wantLog, "mw:"+a)
